@@ -65,8 +65,26 @@ def gen_lp(rng, i):
         if rng.random() < 0.3:   # duplicated mapping row; only the first row's flag counts (optimization.py:221)
             mp.append({'index': j, 'asset': 'a', 'node': 'M', 'type': 'd', 'time_step': j % 3, 'disp_factor': 0.5,
                        'var_name': 'v', 'bool': (j in bools) if rng.random() < 0.7 else (j not in bools)})
-    return {'id': 'lp%d' % i, 'seed': 'lp%d' % i, 'lp': {'c': c, 'l': l, 'u': u, 'rows': rows, 'b': b, 'cType': ct, 'mapping': mp},
-            'opts': {}}
+    lp = {'c': c, 'l': l, 'u': u, 'rows': rows, 'b': b, 'cType': ct, 'mapping': mp}
+    sp = {'id': 'lp%d' % i, 'seed': 'lp%d' % i, 'lp': lp, 'opts': {}}
+    r = rng.random()
+    if r < 0.25:
+        # open-ended bounds (e.g. a purchase-only contract without capacity limit); the cost keeps the problem bounded
+        for j in rng.sample([j for j in range(n) if j not in bools], min(2, n - len(bools))):
+            if rng.random() < 0.6:
+                u[j] = float('inf'); c[j] = abs(c[j])
+            else:
+                l[j] = float('-inf'); c[j] = -abs(c[j])
+    elif r < 0.55 and not infeasible:
+        # the same problem object is changed afterwards (bounds and right-hand sides of the same shape, x0 stays feasible) and solved again
+        u2 = [x0[j] if rng.random() < 0.4 else u[j] for j in range(n)]
+        l2 = [x0[j] if rng.random() < 0.2 else l[j] for j in range(n)]
+        b2 = []
+        for (cols, vals), t, bb in zip(rows, ct, b):
+            ax = sum(v * x0[j] for j, v in zip(cols, vals))
+            b2.append(ax if (cols and t in 'UL' and rng.random() < 0.6) else bb)
+        sp['lp2'] = dict(lp, l=l2, u=u2, b=b2)
+    return sp
 
 
 def duals_to_y(prob, du):
@@ -107,19 +125,31 @@ def run(ctx):
     fexprs, fowners = [], []
     texprs, towners = [], []
     res_of = {}
+    BIG = 2.0 ** 40
+
+    def finite(prob):
+        """the problem with open-ended bounds replaced by a far-away finite stand-in (feasibility of a returned point is unaffected;
+        optimality is not certified for such problems)"""
+        import math
+        if not any(math.isinf(v) for v in prob['l'] + prob['u']):
+            return prob, False
+        return dict(prob, l=[-BIG if math.isinf(v) else v for v in prob['l']], u=[BIG if math.isinf(v) else v for v in prob['u']]), True
+
     for sp, o in zip(specs, res):
         ctx.count('status:' + str(o.get('status')))
         if o.get('status') != 'ok':
             continue
-        prob = o['problem']
+        prob, openended = finite(o['problem'])
+        if openended:
+            ctx.count('problem with open-ended bounds')
         tr = o.get('translation')
         if tr is not None:
             if tr['problems']:
                 ctx.broken('correspondence-broken', {'spec': sp, 'theorem_or_correspondence': 'constraints handed to cvxpy not understood: %s' % tr['problems']})
             else:
                 # bounds are handed over as they are; rows by class
-                if tr.get('bound_u') != prob['u'] or tr.get('bound_l') != prob['l']:
-                    ctx.violation('impl-violation', {'spec': sp, 'observed': {'bounds handed to the solver': [tr.get('bound_l'), tr.get('bound_u')]}, 'expected': [prob['l'], prob['u']]},
+                if tr.get('bound_u') != o['problem']['u'] or tr.get('bound_l') != o['problem']['l']:
+                    ctx.violation('impl-violation', {'spec': sp, 'observed': {'bounds handed to the solver': [tr.get('bound_l'), tr.get('bound_u')]}, 'expected': [o['problem']['l'], o['problem']['u']]},
                                   trigger={'what': 'bounds handed to the solver differ'})
                 gk = {'LE': 'GLe', 'GE': 'GGe', 'EQ': 'GEq'}
                 obs = C.lst(['(Build_cgroup %s %s)' % (gk[g['kind']], C.lst(['(%s, %s)' % (C.srow(r[0], r[1]), C.q(float(b))) for r, b in zip(g['rows'], g['b'])])) for g in tr['groups']])
@@ -127,12 +157,17 @@ def run(ctx):
                 towners.append(sp)
         ismip = len(o['bools']) > 0
         ctx.count('mip' if ismip else 'lp')
-        for r in o['runs']:
+        runs = [(r, prob, openended) for r in o['runs']]
+        if o.get('runs2'):
+            p2, open2 = finite(o['problem2'])
+            runs += [(r, p2, open2) for r in o['runs2']]
+            ctx.count('problem object changed and solved again')
+        for r, prob, openended in runs:
             ctx.count('solve:%s' % r['solve'])
             if r['solve'] == 'optimal':
                 scale = 1 + abs(r['value']) + max([abs(v) for v in prob['b']] + [0])
                 eps = 2e-6 * scale
-                if r.get('duals') and (not ismip or r['kw'].get('make_soft_problem')):
+                if r.get('duals') and (not ismip or r['kw'].get('make_soft_problem')) and not openended:
                     y = duals_to_y(prob, r['duals'])
                     have_y = True
                 else:
